@@ -13,6 +13,7 @@ import (
 	"github.com/TheManticoreProject/Manticore/network/netbios/nbtns"
 
 	"verif.local/harness/hx"
+	simctx "verif.local/sim/context"
 	simnet "verif.local/sim/net"
 	"verif.local/sim/rt"
 	simtime "verif.local/sim/time"
@@ -178,6 +179,7 @@ type llQuery struct {
 	name   int
 	id     uint16 // raw clients: chosen; real client: learnt from the wire
 	cancel int64  // real client: cancel the context after this long (0 = never)
+	ctxTO  int64  // real client: the caller's context carries a deadline this far in the future (0 = none)
 	resp   *llmnr.Message
 	err    error
 	start  int64
@@ -443,16 +445,26 @@ func runLLMNR(w *rt.World, res *hx.Result, realServer, realClient bool) *hx.Viol
 				if pool[c][q][1] == 0 {
 					lq.cancel = [...]int64{1e6, 100e6, 1e9}[pool[c][q][0]%3]
 				}
+				if pool[c][q][1] == 1 {
+					// the caller's context has a deadline of its own (shorter or longer than the client's timeout)
+					lq.ctxTO = [...]int64{150e6, 1e9, 4e9}[pool[c][q][0]%3]
+				}
 				if twins && n > 0 && n%2 == 1 {
 					// the same name as the previous call, the other record type, on the same Client, at the same time
 					// (what a dual-stack resolver does)
-					lq.name, lq.qtype, lq.cancel = n-1, llmnr.TypeAAAA, realQs[len(realQs)-1].cancel
+					lq.name, lq.qtype, lq.cancel, lq.ctxTO = n-1, llmnr.TypeAAAA, realQs[len(realQs)-1].cancel, 0
 				}
 				n++
 				realQs = append(realQs, lq)
 				tasks = append(tasks, rt.GoHarness(fmt.Sprintf("query%d/%d", lq.name, lq.qtype), "10.0.1.1", func() {
 					ctx, cancel := context.WithCancel(context.Background())
 					defer cancel()
+					if lq.ctxTO > 0 {
+						var c2 context.CancelFunc
+						ctx, c2 = simctx.WithTimeout(ctx, time.Duration(lq.ctxTO))
+						defer c2()
+						rt.Probe(PCtxDeadline)
+					}
 					if lq.cancel > 0 {
 						at := rt.Now() + lq.cancel
 						rt.GoHarness("canceller", "", func() {
@@ -711,7 +723,11 @@ func runLLMNR(w *rt.World, res *hx.Result, realServer, realClient bool) *hx.Viol
 				switch {
 				case strings.Contains(q.err.Error(), "timeout") || q.err == context.DeadlineExceeded:
 					rt.Probe(PClientTimeout)
-					if el < int64(cl.Timeout) {
+					limit := int64(cl.Timeout)
+					if q.ctxTO > 0 && q.ctxTO < limit && q.err == context.DeadlineExceeded {
+						limit = q.ctxTO
+					}
+					if el < limit {
 						return &hx.Violation{Class: "client_mismatch", Key: "early_timeout",
 							Msg: fmt.Sprintf("Query(%s) reported a timeout after %.3fs, before its %.3fs timeout", name, float64(el)/1e9, cl.Timeout.Seconds())}
 					}
